@@ -611,3 +611,33 @@ def check_C13(ctx):
         tf = [e for e in em if e.get("t") == "TOOLFAIL"]
         if tf:
             raise ToolError("harness/spec disagreement (not a verdict): %s" % json.dumps(tf[0])[:400])
+
+
+# ------------------------------------------------------------------------------- C16
+
+@prop("C16", "(a) every arrival history of MC_DedupSets (constructor list of <= 3 elements through new / tagged CBOR / untagged CBOR / JSON, "
+             "then <= 2..5 add() calls, 3 distinct elements) on 7 set types + 3 witness-set setters, plus random longer histories; (b) all "
+             "24 orders of four asset names of lengths 0,1,1,2 under two policies, and random bundles, through MultiAsset, MintBuilder and "
+             "the builder's mint field; (c) Build;Build on builder scenarios incl. Plutus ones with several reference inputs, and no datum / "
+             "script twice in a built witness set; distinct = (type, path, |init|, |adds|, |distinct|), name-length orders, transaction shapes")
+def check_C16(ctx):
+    ctx.assumptions += ["two builds are compared inside one process and one builder instance (each HashMap/HashSet instance has its own random state, which is what made the reference inputs differ)",
+                        "JSON arrival is the container's from_json over an array of the elements' own JSON forms"]
+    if ctx.replay:
+        ctx.run_replay()
+        return
+    r = ctx.mc("MC_DedupSets", workers=4)
+    p = ctx.write_scn(r.by("SCN"))
+    run = ctx.drive("sets", scn=p, n=6000 if ctx.thorough else 600)
+
+    def corrupt(recs, rnd):
+        n = 0
+        for r in recs:
+            # negative control: the recorded constructor list loses its first element - the serialized order no longer matches
+            if r.get("ev") == "Set" and isinstance(r.get("r"), dict) and r["r"].get("ok") and len(set(r["init"])) >= 2:
+                r["init"] = r["init"][1:] + r["init"][:1]
+                n += 1
+        return n > 0
+    ctx.validate("Trace_DedupSets", run, shards=16, corrupt=corrupt)
+    if not ctx.selftest:
+        builder_family(ctx, n_random=6000 if ctx.thorough else 600, mc_sample=None if ctx.thorough else 300, n_plutus=6000 if ctx.thorough else 700)
